@@ -15,11 +15,11 @@ CONSTANTS
   MutVals = {0, 9}
   MutBodies = {0, 1, 300}
   FillTargets = {65535, 65536, 70009}
-  IdFirst = {"new", "same", "zero"}
-  IdSecond = {"max"}
+  IdFirst = {"new"}
+  IdSecond = {"zero", "max"}
   MaxMut = 1
   MaxFwd = 2
-  MaxOps = 4
+  MaxOps = 3
   Defects = {}
 SPECIFICATION Spec
 INVARIANTS Faithful EmitCase
